@@ -145,6 +145,16 @@ pub fn branch_patterns() -> Vec<String> {
             bodies.push(format!("({s})*{t}"));
         }
     }
+    // three-way alternatives of two-letter strings that share first or second letters: which target
+    // belongs to which class matters (x->{P}, y->{Q,R} versus x->{P,Q}, y->{R})
+    let two = ["xp", "xq", "xr", "yp", "yq", "yr"];
+    for i in 0..two.len() {
+        for j in i + 1..two.len() {
+            for k in j + 1..two.len() {
+                bodies.push(format!("({}|{}|{})", two[i], two[j], two[k]));
+            }
+        }
+    }
     let mut v = vec![];
     for p in ["a", "b"] {
         for b in &bodies {
